@@ -24,8 +24,13 @@ def main():
     ctx.replay_file = a.replay
     mod = importlib.import_module("gen.props." + prop.lower())
     try:
-        cov = C.proof_obligations(ctx, prop, mod.THEOREMS, getattr(mod, "ALLOWED_AXIOMS", frozenset()))
-        ctx.coverage.update(cov)
+        if mod.THEOREMS:
+            cov = C.proof_obligations(ctx, prop, mod.THEOREMS, getattr(mod, "ALLOWED_AXIOMS", frozenset()))
+            ctx.coverage.update(cov)
+        else:
+            ok, log = C.build_coq()
+            if not ok:
+                raise C.Broken("coq build failed:\n" + log[-3000:])
         H = catalogue.build(ctx, mod)
         mod.run(ctx, H)
     except C.Broken as e:
